@@ -53,24 +53,25 @@ mod set_reach__src0;
 mod bset__par;
 mod opt_lat__par;
 mod lat_two_keys__ser;
-mod count_paths__ser;
-mod count_paths__src0;
-mod neg_basic__par;
-mod neg_basic__src1;
-mod neg_basic__ren;
-mod agg_depth__par;
-mod agg_lattice__topar;
-mod neg_rec_after__exppar;
-mod agg_empty__topar;
-mod disj__gen;
-mod disj__perm1;
-mod disj_nested__pari;
-mod rep_expr__ser;
-mod multi_head_disj__exp;
-mod mac_basic__par;
-mod mac_basic__src1;
-mod mac_capture__ser;
-mod mac_nested__exp;
+mod lat_val_bound__ser;
+mod count_paths__run;
+mod count_paths__runpar;
+mod neg_basic__mrt;
+mod neg_basic__srcpar;
+mod agg_minmaxsum__par;
+mod agg_lattice__par;
+mod neg_rec_after__par;
+mod agg_empty__par;
+mod disj__topar;
+mod disj__init;
+mod disj__exppar;
+mod pat_args__pari;
+mod multi_head_disj__ser;
+mod neg_in_disj__exp;
+mod mac_basic__mrt;
+mod mac_basic__srcpar;
+mod mac_nested__ser;
+mod mac_disj__exp;
 
 fn lookup(name: &str) -> fn() -> Box<dyn Driven> {
    match name {
@@ -119,24 +120,25 @@ fn lookup(name: &str) -> fn() -> Box<dyn Driven> {
       "bset__par" => bset__par::make,
       "opt_lat__par" => opt_lat__par::make,
       "lat_two_keys__ser" => lat_two_keys__ser::make,
-      "count_paths__ser" => count_paths__ser::make,
-      "count_paths__src0" => count_paths__src0::make,
-      "neg_basic__par" => neg_basic__par::make,
-      "neg_basic__src1" => neg_basic__src1::make,
-      "neg_basic__ren" => neg_basic__ren::make,
-      "agg_depth__par" => agg_depth__par::make,
-      "agg_lattice__topar" => agg_lattice__topar::make,
-      "neg_rec_after__exppar" => neg_rec_after__exppar::make,
-      "agg_empty__topar" => agg_empty__topar::make,
-      "disj__gen" => disj__gen::make,
-      "disj__perm1" => disj__perm1::make,
-      "disj_nested__pari" => disj_nested__pari::make,
-      "rep_expr__ser" => rep_expr__ser::make,
-      "multi_head_disj__exp" => multi_head_disj__exp::make,
-      "mac_basic__par" => mac_basic__par::make,
-      "mac_basic__src1" => mac_basic__src1::make,
-      "mac_capture__ser" => mac_capture__ser::make,
-      "mac_nested__exp" => mac_nested__exp::make,
+      "lat_val_bound__ser" => lat_val_bound__ser::make,
+      "count_paths__run" => count_paths__run::make,
+      "count_paths__runpar" => count_paths__runpar::make,
+      "neg_basic__mrt" => neg_basic__mrt::make,
+      "neg_basic__srcpar" => neg_basic__srcpar::make,
+      "agg_minmaxsum__par" => agg_minmaxsum__par::make,
+      "agg_lattice__par" => agg_lattice__par::make,
+      "neg_rec_after__par" => neg_rec_after__par::make,
+      "agg_empty__par" => agg_empty__par::make,
+      "disj__topar" => disj__topar::make,
+      "disj__init" => disj__init::make,
+      "disj__exppar" => disj__exppar::make,
+      "pat_args__pari" => pat_args__pari::make,
+      "multi_head_disj__ser" => multi_head_disj__ser::make,
+      "neg_in_disj__exp" => neg_in_disj__exp::make,
+      "mac_basic__mrt" => mac_basic__mrt::make,
+      "mac_basic__srcpar" => mac_basic__srcpar::make,
+      "mac_nested__ser" => mac_nested__ser::make,
+      "mac_disj__exp" => mac_disj__exp::make,
       _ => panic!("no such program variant in this shard: {}", name),
    }
 }
